@@ -1061,9 +1061,12 @@ pub fn supervise(prop: &dyn Prop, tier: Tier) -> RunResult {
     let evpath = evdir.join(format!("{}.json", prop.id()));
     merge_and_write_evidence(&evpath, ev);
 
-    for (sig, (n, what)) in &known_hits {
-        let text = known.iter().find(|k| &k.sig == sig).map(|k| k.text.clone()).unwrap_or_default();
-        println!("KNOWN-FINDING: property={} signature={} hits={} {} ({})", prop.id(), sig, n, text, what);
+    // one line per listed finding, whether or not this run happened to hit it
+    for k in &known {
+        match known_hits.get(&k.sig) {
+            Some((n, what)) => println!("KNOWN-FINDING: property={} signature={} hits={} {} (e.g. {})", prop.id(), k.sig, n, k.text, what),
+            None => println!("KNOWN-FINDING: property={} signature={} hits=0 {} (not reached by the cases of this run)", prop.id(), k.sig, k.text),
+        }
     }
     if let Some((path, v, _case)) = violation_line {
         println!("VIOLATION property={} replay={}", prop.id(), path);
